@@ -38,6 +38,13 @@ of `rcb`: the `<prev iter>` token is dropped. -/
 def dropPrev : List String → List String
   | "rcbreuse" :: d :: iter :: tol :: threads :: _prev :: rest =>
     "rcb" :: d :: iter :: tol :: threads :: rest
+  -- `rcbvar` / `ribvar`: the same data through another input type / calling context / with the
+  -- zero signs normalised; the model has one input type and no context, and replays zero signs
+  -- exactly, so it predicts the plain call on the data of the line
+  | "rcbvar" :: d :: iter :: tol :: threads :: _variant :: rest =>
+    "rcb" :: d :: iter :: tol :: threads :: rest
+  | "ribvar" :: d :: iter :: tol :: threads :: _variant :: rest =>
+    "rib" :: d :: iter :: tol :: threads :: rest
   | t => t
 
 def handleCore (toks : List String) : String :=
